@@ -51,7 +51,7 @@ TOOLS = [("ovniemu", "ovniemu", ["-l"]),
          ("ovnitop", "ovnitop", []),
          ("ovnisort-c", "ovnisort", ["-c"]),
          ("ovnisort", "ovnisort", [])]
-T_SHORT = 3.0          # first pass
+T_SHORT = 2.0          # first pass
 T_LONG = 10.0          # confirmation of a hang
 INVS = ["CursorInBounds", "Progress", "HeaderReadInBounds", "ReadsWithinEvent",
         "VerdictIsExit0or1", "StepIsExtent"]
@@ -120,9 +120,10 @@ def seeds():
 
 class Inp:
     """One input: the files of every stream of the trace."""
-    __slots__ = ("fam", "label", "seed", "files", "pred", "nontrivial")
+    __slots__ = ("fam", "label", "seed", "files", "pred", "nontrivial", "tools")
 
-    def __init__(self, fam, label, seed, files, pred=None, nontrivial=True):
+    def __init__(self, fam, label, seed, files, pred=None, nontrivial=True, tools=None):
+        self.tools = tools        # None = every tool, else the names of TOOLS to run
         self.fam = fam            # family
         self.label = label        # what was changed
         self.seed = seed          # seed name
@@ -173,22 +174,37 @@ class Res:
     __slots__ = ("rc", "timeout", "text", "wall")
 
 
+_LIMITS_SET = False
+
+
 def _limits():
-    resource.setrlimit(resource.RLIMIT_CORE, (0, 0))
-    resource.setrlimit(resource.RLIMIT_FSIZE, (1 << 28, 1 << 28))
+    """no core files, bounded output files (inherited by the tools; set once per spawning process so
+    that subprocess can use vfork instead of fork + preexec_fn)"""
+    global _LIMITS_SET
+    if not _LIMITS_SET:
+        resource.setrlimit(resource.RLIMIT_CORE, (0, 0))
+        soft, hard = resource.getrlimit(resource.RLIMIT_FSIZE)
+        lim = 1 << 28
+        if hard != resource.RLIM_INFINITY:
+            lim = min(lim, hard)
+        resource.setrlimit(resource.RLIMIT_FSIZE, (lim, hard))
+        _LIMITS_SET = True
 
 
-def run_tool(bdir, exe, args, timeout):
+def run_tool(bdir, exe, args, timeout, heapbuf=True):
     """stdout is discarded, stderr is kept (first 48 KiB + last 16 KiB).  On a timeout
     the process first gets SIGABRT (ASan, handle_abort=1, prints where it was), then SIGKILL."""
     env = dict(os.environ)
-    env.update({"OVNI_CONFIG_DIR": emu.empty_cfg(), "OVNI_VERIF_HEAPBUF": "1",
+    env.pop("OVNI_VERIF_HEAPBUF", None)
+    if heapbuf:
+        env["OVNI_VERIF_HEAPBUF"] = "1"
+    env.update({"OVNI_CONFIG_DIR": emu.empty_cfg(),
                 "ASAN_OPTIONS": "detect_leaks=0:handle_abort=1:allocator_may_return_null=1",
                 "UBSAN_OPTIONS": "print_stacktrace=1"})
     t0 = time.time()
+    _limits()
     p = subprocess.Popen([core.tool(bdir, exe)] + list(args), stdout=subprocess.DEVNULL,
-                         stderr=subprocess.PIPE, stdin=subprocess.DEVNULL, env=env,
-                         preexec_fn=_limits)
+                         stderr=subprocess.PIPE, stdin=subprocess.DEVNULL, env=env)
     fd = p.stderr.fileno()
     head = bytearray()
     tail = bytearray()
@@ -258,6 +274,12 @@ _UB = [("signed integer overflow", "signed-integer-overflow"),
        ("insufficient space", "object-size"), ("variable length array", "vla-bound")]
 
 
+_LOADING = ("trace_load", "emu_init", "emu_connect", "player_init", "system_init", "stream_load",
+            "load_json", "emu_load", "models_register", "model_probe", "model_create", "model_connect")
+_BADMEM = ("heap-buffer-overflow", "SEGV", "unknown-crash", "BUS", "heap-use-after-free", "wild-addr-read",
+           "wild-addr-write", "wild-jump")
+
+
 def _is_repo_frame(path):
     return "/src/" in path and "libsanitizer" not in path and not path.startswith("../") \
         and path.endswith((".c", ".h"))
@@ -299,11 +321,8 @@ def classify(res):
     if res.timeout:
         i = t.find("ERROR: AddressSanitizer: ABRT")
         fr = _frames(t[i:]) if i >= 0 else []
-        # the frame called from main: stable whatever the sampled point of the loop is
-        where = "?"
-        if fr:
-            k = fr.index("main") if "main" in fr else len(fr)
-            where = fr[k - 1] if k >= 1 else "main"
+        # the sampled point of a loop is arbitrary: only tell loading the trace from walking the events
+        where = "loading" if any(f in _LOADING for f in fr) else "events"
         return ("timeout", where, t[:600] + "\n[...]\n" + (t[i:i + 1500] if i >= 0 else t[-600:]))
     m = _re_ubsan.search(t)
     a = _re_asan.search(t)
@@ -331,6 +350,8 @@ def classify(res):
             re.search(r"caused by a (READ|WRITE) memory access", seg)
         if m2:
             rw = "-" + m2.group(1)
+        if typ in _BADMEM:
+            typ = "bad"           # where a wild pointer lands decides the ASan type, not the defect
         return ("asan-" + typ + rw, _top(_frames(seg)), t[max(0, a.start() - 300):a.start() + 2500])
     if res.rc is not None and res.rc < 0:
         f2 = re.search(r"FATAL: (\w+):(.*)", t)
@@ -552,7 +573,7 @@ def gen_sweep(ck, rng, tier, sd, lines):
                 if nf != e["flags"]:
                     out.append(Inp("flags", "ev%d %s flags 0x%02x->0x%02x" % (i, e["mcv"], e["flags"], nf), n,
                                    with_obs(s, pre + bytes([nf]) + d[o + 1:])))
-            for x in (0x10, 0x20, 0x40, 0x80, 0xF0):
+            for x in ((0x10, 0x80, 0xF0) if tier == "quick" else (0x10, 0x20, 0x40, 0x80, 0xF0)):
                 nf = e["flags"] ^ x
                 out.append(Inp("flags", "ev%d %s flags 0x%02x->0x%02x" % (i, e["mcv"], e["flags"], nf), n,
                                with_obs(s, pre + bytes([nf]) + d[o + 1:])))
@@ -562,7 +583,7 @@ def gen_sweep(ck, rng, tier, sd, lines):
                 vals.update(allsz)
             else:
                 for k, v in sizes.items():
-                    vals.update(rng.sample(v, min(2, len(v))))
+                    vals.update(rng.sample(v, min(1 if tier == "quick" else 3, len(v))))
             end = len(d) - o - 16                       # jumbo data reaching exactly the end of the file
             vals.update(x & 0xFFFFFFFF for x in (0, 1, len(body) - 4, len(body) - 3, end, end + 1, end - 1)
                         if x >= 0)
@@ -580,7 +601,8 @@ def gen_sweep(ck, rng, tier, sd, lines):
                 out.append(Inp("clock", "ev%d %s clock=%d" % (i, e["mcv"], c), n,
                                with_obs(s, pre + d[o:o + 4] + struct.pack("<Q", c & (2 ** 64 - 1)) + d[o + 12:])))
             # model / category / value bytes
-            for k, ch in ((1, 0), (1, 0xFF), (1, ord("Z")), (2, 0), (2, ord("?")), (3, 0), (3, 0x7F)):
+            mv = [(1, 0), (1, 0xFF), (1, ord("Z")), (2, 0), (2, ord("?")), (3, 0), (3, 0x7F)]
+            for k, ch in (rng.sample(mv, 3) if tier == "quick" else mv):
                 nb = bytearray(d)
                 nb[o + k] = ch
                 out.append(Inp("mcv", "ev%d %s byte%d=0x%02x" % (i, e["mcv"], k, ch), n, with_obs(s, bytes(nb))))
@@ -606,11 +628,17 @@ def gen_trunc(ck, rng, tier, sd):
         evs = obs.decode(d)
         bounds = set(e["off"] for e in evs) | {len(d)}
         for L in range(0, len(d)):
+            if tier == "quick" and not (L < 48 or L > len(d) - 40 or L % 3 == 0
+                                        or any(abs(L - b) <= 2 for b in bounds)
+                                        or any(e["jumbo"] and 0 <= L - e["off"] <= 24 for e in evs)):
+                continue
             what = "prefix %d/%d" % (L, len(d))
             out.append(Inp("truncate", what + (" (event boundary)" if L in bounds else ""), n, with_obs(s, d[:L])))
         frag = {"zeros": b"\0" * 15, "jumbo-header": header("OB.", 2000, 3, True) + b"\xff\xff\xff",
                 "plain16-header": header("OB.", 2000, 15, False) + b"\1\2\3", "ff": b"\xff" * 15}
         for nm, fb in frag.items():
+            if tier == "quick" and n in ("marks", "multi") and nm in ("zeros", "ff"):
+                continue
             for k in range(1, 16):
                 out.append(Inp("fragment", "%d trailing bytes (%s)" % (k, nm), n, with_obs(s, d + fb[:k])))
     return out
@@ -649,6 +677,8 @@ def gen_shapes(ck, rng, tier, sd):
                   struct.pack("<I", 33) + b"x" * 5000 + b"\0", struct.pack("<I", 33) + b"%s%s%n\0",
                   struct.pack("<I", 0) + b"zero id\0"]
         for k, jd in enumerate(labels):
+            if tier == "quick" and not c["jumbo"] and k not in (0, 3, 6, 8):
+                continue
             for last in (False, True):
                 put("payload-shape", "%s jumbo data#%d len=%d" % (mcv, k, len(jd)),
                     header(mcv, 1005, 3, True) + struct.pack("<I", len(jd)) + jd, last)
@@ -715,8 +745,13 @@ def gen_meta(ck, rng, tier, sd):
             out.append(Inp("meta-delete", "delete %s" % ps, n,
                            with_json(s, json.dumps(_set(meta, p, None, delete=True)).encode())))
             for vn, v in JVALS:
+                # ovnidump, ovnitop and ovnisort share stream_load (parse + "version") and read no other
+                # key: in the quick tier the three of them run on "version" and on a sample of the rest
+                sub = None
+                if tier == "quick" and ps != "version" and rng.random() >= 0.2:
+                    sub = ("ovniemu", "ovnidump")
                 out.append(Inp("meta-type", "%s = %s" % (ps, vn), n,
-                               with_json(s, json.dumps(_set(meta, p, v)).encode())))
+                               with_json(s, json.dumps(_set(meta, p, v)).encode()), tools=sub))
         # the same key changed in another stream of a multi-stream trace (merge paths)
         if n == "multi":
             m2 = s[1][1]
@@ -753,7 +788,7 @@ def gen_meta(ck, rng, tier, sd):
     for k, cp in enumerate(([{"index": 0}], [{"phyid": 1}], [{"index": -1, "phyid": 1}], [{"index": 1 << 40, "phyid": 1}],
                             [{"index": 0, "phyid": 1}, {"index": 0, "phyid": 2}], [{"index": 5, "phyid": 1}],
                             [{"index": 0, "phyid": -1}], [{"index": "0", "phyid": "1"}], [1, 2], [[], []], [None],
-                            [{"index": 0, "phyid": 1}] * 3, [{"index": i, "phyid": i} for i in range(2000)],
+                            [{"index": 0, "phyid": 1}] * 3, [{"index": i, "phyid": i} for i in range(400)],
                             [{"index": 1000000, "phyid": 7}], [{"index": 2147483647, "phyid": 7}])):
         m = json.loads(json.dumps(meta))
         m["ovni"]["loom_cpus"] = cp
@@ -785,7 +820,7 @@ def gen_random(ck, rng, tier, sd, lines):
     """seeded structure-aware mutations: 1..3 operations on events and metadata"""
     out = []
     sizes = sorted(set(x for v in real_sizes(lines).values() for x in v))
-    per = 120 if tier == "quick" else 1500
+    per = 100 if tier == "quick" else 1500
     for n, s in sd:
         d0 = seed_files(s)[0][2]
         meta0 = s[0][1]
@@ -859,14 +894,42 @@ def gen_random(ck, rng, tier, sd, lines):
 # --------------------------------------------------------------------------
 # execution
 
+def _scratch():
+    """/dev/shm when it is there: creating and removing the few files of a trace costs ~20 ms on the
+    disk of the sandbox, as much as the run itself"""
+    import tempfile
+    if os.path.isdir("/dev/shm") and os.access("/dev/shm", os.W_OK):
+        return tempfile.mkdtemp(prefix="verif-c19-", dir="/dev/shm")
+    return core.mkscratch("c19")
+
+
+# Hook H1 keeps the stream in a private heap copy.  When ovnisort really sorts a region it rewrites
+# the FILE with pwrite() and expects to see the new bytes through its mapping; with the heap copy it
+# does not, and its own consistency checks (rebuild_ring, ring_check) abort.  That is an artefact of
+# the hook, not of the tool: a failure of `ovnisort` located in the code that runs after the rewrite
+# is only kept if the run on the mapped file (no OVNI_VERIF_HEAPBUF) fails as well.
+_AFTER_REWRITE = ("rebuild_ring", "ring_check", "execute_sort_plan", "find_destination")
+
+
 def run_case(bdir, inp, tool, timeout, keep=None):
+    """returns (result, classification, number of hook artefacts discarded)"""
     tn, exe, args = tool
-    d = keep or core.mkscratch("c19")
+    d = keep or _scratch()
     try:
         td = os.path.join(d, "trace")
         write_files(td, inp.files)
         res = run_tool(bdir, exe, args + [td], timeout)
-        return res
+        cls = classify(res)
+        art = 0
+        if cls and tn == "ovnisort" and any(f in cls[1] for f in _AFTER_REWRITE):
+            shutil.rmtree(td, ignore_errors=True)
+            write_files(td, inp.files)
+            res2 = run_tool(bdir, exe, args + [td], timeout, heapbuf=False)
+            cls2 = classify(res2)
+            if cls2 is None:
+                art = 1
+            res, cls = res2, cls2
+        return res, cls, art
     finally:
         if not keep:
             shutil.rmtree(d, ignore_errors=True)
@@ -963,10 +1026,10 @@ def main(pid, tier):
     for n, s in sd:
         inp = Inp("seed", "unchanged", n, seed_files(s), nontrivial=False)
         for tool in TOOLS:
-            res = run_case(bdir, inp, tool, T_LONG)
-            if res.rc != 0 or classify(res):
+            res, cls, _ = run_case(bdir, inp, tool, T_LONG)
+            if res.rc != 0 or cls:
                 raise core.MachineryError("seed %s is not accepted by %s: rc=%s %s\n%s"
-                                          % (n, tool[0], res.rc, classify(res), res.text[-1500:]))
+                                          % (n, tool[0], res.rc, cls, res.text[-1500:]))
     inputs = []
     inputs += gen_model(ck, rng, tier, sd, lines)
     inputs += gen_sweep(ck, rng, tier, sd, lines)
@@ -974,6 +1037,7 @@ def main(pid, tier):
     inputs += gen_shapes(ck, rng, tier, sd)
     inputs += gen_meta(ck, rng, tier, sd)
     inputs += gen_random(ck, rng, tier, sd, lines)
+    del lines
     seedkeys = {Inp("seed", "", n, seed_files(s)).key() for n, s in sd}
     seen = set()
     uniq = []
@@ -988,19 +1052,19 @@ def main(pid, tier):
     ck.notes["inputs_by_family"] = dict(fam)
     ck.notes["inputs"] = len(uniq)
     ck.phase("generate")
-    core.log("[C19] %d inputs (%d generated), %d tool runs" % (len(uniq), len(inputs), len(uniq) * len(TOOLS)))
 
-    items = [(ii, ti) for ii in range(len(uniq)) for ti in range(len(TOOLS))]
+    items = [(ii, ti) for ii in range(len(uniq)) for ti in range(len(TOOLS))
+             if uniq[ii].tools is None or TOOLS[ti][0] in uniq[ii].tools]
+    core.log("[C19] %d inputs (%d generated), %d tool runs" % (len(uniq), len(inputs), len(items)))
     rng2 = random.Random(core.seed() + 1)
     rng2.shuffle(items)            # spread the slow (hanging) runs over the workers
 
     def work(it):
         ii, ti = it
-        res = run_case(bdir, uniq[ii], TOOLS[ti], T_SHORT)
-        cls = classify(res)
+        res, cls, art = run_case(bdir, uniq[ii], TOOLS[ti], T_SHORT)
         if cls is None:
-            return (ii, ti, None, res.rc, res.wall, None)
-        return (ii, ti, cls, res.rc, res.wall, res.text)
+            return (ii, ti, None, res.rc, res.wall, None, art)
+        return (ii, ti, cls, res.rc, res.wall, res.text, art)
 
     results = core.pmap(work, items)
     ck.phase("run")
@@ -1020,8 +1084,8 @@ def main(pid, tier):
 
         def work2(it):
             ii, ti = it
-            res = run_case(bdir, uniq[ii], TOOLS[ti], T_LONG)
-            return (ii, ti, classify(res), res.rc, res.wall, res.text)
+            res, cls, art = run_case(bdir, uniq[ii], TOOLS[ti], T_LONG)
+            return (ii, ti, cls, res.rc, res.wall, res.text, art)
 
         for r in core.pmap(work2, again, threads=True, workers=min(core.NCPU, max(1, len(again)))):
             if r[2] and r[2][0] == "timeout":
@@ -1048,8 +1112,10 @@ def main(pid, tier):
     pred_hit = collections.Counter()
     pred_all = collections.Counter()
     failing_inputs = set()
-    for (ii, ti, cls, rc, wall, text) in results:
+    artefacts = 0
+    for (ii, ti, cls, rc, wall, text, art) in results:
         inp = uniq[ii]
+        artefacts += art
         rcs[str(rc)] += 1
         if cls is None:
             clean += 1
@@ -1062,7 +1128,7 @@ def main(pid, tier):
             if not tconf:
                 continue
             if (ii, ti) in confirmed:
-                (_, _, cls, rc, wall, text) = confirmed[(ii, ti)]
+                (_, _, cls, rc, wall, text, _) = confirmed[(ii, ti)]
         failing_inputs.add(ii)
         sig = make_sig(TOOLS[ti][0], cls[0], cls[1])
         g = groups.setdefault(sig, {"n": 0, "fams": collections.Counter(), "best": None, "kind": cls[0],
@@ -1082,6 +1148,7 @@ def main(pid, tier):
             if i in failing_inputs:
                 pred_hit[inp.pred] += 1
     ck.notes["tool_runs"] = len(results)
+    ck.notes["ovnisort_hook_artefacts_discarded"] = artefacts
     ck.notes["clean_runs"] = clean
     ck.notes["exit_status_histogram"] = dict(rcs)
     ck.notes["failing_inputs"] = len(failing_inputs)
@@ -1129,6 +1196,9 @@ def main(pid, tier):
         "channel and part of the trusted base; float-cast-overflow is not part of -fsanitize=undefined",
         "ASAN_OPTIONS handle_abort=1: abort() (die) is reported by ASan with a stack and exit status 1; "
         "allocator_may_return_null=1: an oversize malloc returns NULL as in a normal build",
+        "ovnisort (sort mode) rewrites the file with pwrite() and reads the result through its mapping; with the "
+        "heap copy of hook H1 it cannot, so a failure of ovnisort located after the rewrite (rebuild_ring, "
+        "ring_check, ...) is re-run on the mapped file and only kept if it fails there as well",
         "a hang is a run that exceeds %.0f s (first pass %.0f s; the smallest hanging inputs of every tool are "
         "re-run with the long timeout, the others are counted under the confirmed signature)" % (T_LONG, T_SHORT),
         "exit status 1 vs 0 is not compared with the model (C19 only asks for one of the two)"]
